@@ -8,6 +8,7 @@ import (
 	"os"
 	"os/signal"
 	"sync"
+	"sync/atomic"
 	"syscall"
 	"time"
 
@@ -22,7 +23,7 @@ type (
 		server   net.Listener
 		cancelFn context.CancelFunc
 		wg       sync.WaitGroup
-		hook     DispatchHook
+		hook     atomic.Pointer[DispatchHook]
 
 		port            int
 		iface           string
@@ -248,5 +249,6 @@ func (eng *RedisEmu) SetHook(hook DispatchHook) {
 	eng.mu.Lock()
 	defer eng.mu.Unlock()
 
-	eng.hook = hook
+	// the dispatcher reads the hook on every command, from every connection
+	eng.hook.Store(&hook)
 }
